@@ -8,7 +8,9 @@ CHECK = {
     "level_text": "Held on the executions observed: every cell of the algorithm matrix was run at least once per fitting key (counters per alg/enc cell are mandatory, a cell "
                   "that never round-tripped makes the run inconclusive or violated, never a pass), and every bit of every field of one object per (algorithm, serialization) "
                   "was inverted and had to be rejected. Exhaustive over the matrix and over bit positions of the chosen objects; a sample over keys, payload contents and the "
-                  "library's own randomness (IVs, ephemeral keys, salts, CEKs). Not a proof.",
+                  "library's own randomness (IVs, ephemeral keys, salts, CEKs). Parts foreign / foreignmatrix: objects of the whole matrix (12 signature algs; 14 key managements x 6 content "
+                  "encryptions x zip, compact and flattened JSON with aad, payloads up to 1 MiB incl. highly compressible ones) made by an independent producer on standard-library "
+                  "primitives must verify/decrypt here to the payload. Not a proof.",
     "level_note": "Quick tier: the 2048-bit RSA encrypted_key field is sampled (32 edge bits + 480 PRNG-chosen bits per object), all other fields and the thorough tier flip every bit; "
                   "one object per (alg, enc, serialization) is tampered, not one per payload size. The library draws IVs/ephemeral keys/salts from crypto/rand, which a black-box "
                   "monitor cannot seed: runs repeat the same cases but not the same ciphertexts (recorded replays carry the serialized object). Trusts Go's crypto, encoding/json "
@@ -16,6 +18,7 @@ CHECK = {
                   "(ECDH-ES Z padding, CBC-HMAC tag length split, width of EC 'd') are recorded as observations only.",
     "parts": [
         {"name": "foreign", "pkg": "verifharness/prop/c16", "run": "^TestVerif_C16_Foreign$", "timeout": {"quick": 600, "thorough": 3600}},
+        {"name": "foreignmatrix", "pkg": "verifharness/prop/c16", "run": "^TestVerif_C16_ForeignMatrix$", "timeout": {"quick": 900, "thorough": 5400}},
         {"name": "sign", "pkg": "verifharness/prop/c16", "run": "^TestVerif_C16_Sign$",
          "timeout": {"quick": 900, "thorough": 5400}},
         {"name": "encrypt", "pkg": "verifharness/prop/c16", "run": "^TestVerif_C16_Encrypt$",
